@@ -14,5 +14,6 @@ INVARIANT ComlogNeverInMainFile
 INVARIANT ComlogOnceInComlogFile
 INVARIANT RetentionOK
 PROPERTY SinksIsolated
+PROPERTY RolloverKeepsNewest
 PROPERTY CfgFixed
 CHECK_DEADLOCK FALSE
